@@ -44,21 +44,21 @@ _W = sweep._W
 
 
 def make_jobs(prop, tier):
-    rng = common.rng("reparse-jobs-" + prop)
     files = gen_inputs.corpus_files()
     sample = list(files)
-    rng.shuffle(sample)
+    (random.Random("reparse-jobs-core-" + prop) if tier == "quick" else common.rng("reparse-jobs-" + prop)).shuffle(sample)
     seedv = common.seed()
+    sv = sweep.core_seed if tier == "quick" else (lambda i: seedv)
     jobs = []
     cfgs = ["default", "jcl", "random", "all_enabled", "default", "random_jcl", "upper", "random"]
-    variants = ["orig", "orig", "messy", "lines", "ws", "comments", "splitall", "tabs", "case"]
+    variants = ["orig", "orig", "messy", "lines", "ws", "comments", "splitall", "tabs", "case", "usecomments", "flush", "glue"]
     if tier == "quick":
         n = 330
         for i in range(n):
             c = cfgs[i % len(cfgs)]
-            j = {"path": sample[i % len(sample)], "variant": variants[(i // 2) % len(variants)], "vseed": seedv * 1000 + i, "config": c}
+            j = {"path": sample[i % len(sample)], "variant": variants[(i // 2) % len(variants)], "vseed": sv(i) * 1000 + i, "config": c}
             if c.startswith("random"):
-                j["cseed"] = seedv * 1000 + (i % 24)
+                j["cseed"] = sv(i) * 1000 + (i % 24)
             jobs.append(j)
     else:
         k = 0
@@ -69,6 +69,15 @@ def make_jobs(prop, tier):
                     j["cseed"] = seedv * 1000 + (k % 60)
                 jobs.append(j)
                 k += 1
+    # directed: every rule's own test input; C08 with every rule enabled (and some flush left / with code tags),
+    # C09 under the default configuration and with every rule enabled in turn
+    for i, p in enumerate(sweep.directed_files(files)):
+        if prop == "C08":
+            jobs.append({"path": p, "variant": "orig", "vseed": 0, "config": "all_enabled", "directed": True})
+            if i % 4 == 0:
+                jobs.append({"path": p, "variant": ("flush", "codetags")[(i // 4) % 2], "vseed": sv(i) * 1000 + i, "config": ("all_enabled", "upper")[(i // 8) % 2], "directed": True})
+        elif tier != "quick" or i % 2 == 0:
+            jobs.append({"path": p, "variant": "orig", "vseed": 0, "config": ("default", "all_enabled")[(i // 2) % 2], "directed": True})
     for i, j in enumerate(jobs):
         if j["config"].startswith("random") and (prop == "C09" or i % 4 != 1):
             j["nozero"] = True
@@ -76,7 +85,7 @@ def make_jobs(prop, tier):
         # fix_phase / skip_phase modes on a part of the jobs (the full fix on all of them)
         modes = [(7, []), (7, []), (7, []), (1, []), (2, []), (3, []), (7, [4]), (5, []), (7, [1]), (7, [6])]
         for i, j in enumerate(jobs):
-            fp, sk = modes[i % len(modes)]
+            fp, sk = modes[i % len(modes)] if not j.get("directed") else (7, [])
             j["fix_phase"] = fp
             j["skip_phase"] = sk
     return jobs
@@ -131,10 +140,30 @@ def sig(o):
     """(class, value, indent, hierarchy) of every real token; pseudo tokens are left out"""
     from vsg import parser as vparser
 
-    return [(cname(t), t.get_value(), t.indent, t.hierarchy) for t in o.lAllObjects if not isinstance(t, vparser.beginning_of_file)]
+    return [(cname(t), t.get_value(), t.indent, t.hierarchy, tuple(sorted(set(map(str, getattr(t, "code_tags", None) or []))))) for t in o.lAllObjects if not isinstance(t, vparser.beginning_of_file)]
 
 
 FIELDS = ("class", "value", "indent", "hierarchy")
+LAYOUT_CLASSES = ("vsg.parser.whitespace", "vsg.parser.carriage_return", "vsg.parser.blank_line")
+
+
+def code_first_diff(a, b):
+    """the two signatures without their layout tokens (blanks, line breaks, blank-line markers), position by
+    position: first code token whose class, or whose set of code tags, differs.  Independent of any drift the
+    layout tokens may have (a stray blank_line marker shifts every later index of the full comparison).
+    Returns (index in a, field, model class, reparsed class) or None; unequal lengths are left to the
+    full comparison"""
+    ia = [i for i, x in enumerate(a) if x[0] not in LAYOUT_CLASSES]
+    ib = [i for i, x in enumerate(b) if x[0] not in LAYOUT_CLASSES]
+    if len(ia) != len(ib):
+        return None
+    for i, j in zip(ia, ib):
+        if a[i][0] != b[j][0]:
+            return (i, "codeClass", a[i][0], b[j][0], j)
+    for i, j in zip(ia, ib):
+        if a[i][4] != b[j][4]:
+            return (i, "code_tags", a[i][0], b[j][0], j)
+    return None
 
 
 def first_diff(a, b, upto=4):
@@ -364,7 +393,7 @@ def localise(lines, cla, oc, job, want_field):
 
     o = vsgrun.parse(lines, cla, oc)
     rl = vsgrun.new_rule_list(o, oc)
-    upto = 2 if want_field in ("class", "value", "length", "rejected") else 4
+    upto = 2 if want_field in ("class", "value", "length", "rejected", "codeClass", "code_tags") else 4
     refreshes = job.get("fix_phase", 7) >= 4 and 4 not in (job.get("skip_phase") or [])
     # indents are expected to be stale until the refresh in front of phase 4
     state = {"found": None, "armed": not refreshes}
@@ -380,6 +409,11 @@ def localise(lines, cla, oc, job, want_field):
         if want_field == "rejected":
             return
         a, b = sig(o), sig(o2)
+        if want_field in ("codeClass", "code_tags"):
+            cd = code_first_diff(a, b)
+            if cd is not None and cd[1] == want_field:
+                state["found"] = (rule, {"field": want_field, "token_index": cd[0], "line": line_of(a, cd[0]), "model_token": (short(a[cd[0]][0]), a[cd[0]][1], a[cd[0]][4]), "reparsed_token": (short(b[cd[4]][0]), b[cd[4]][1], b[cd[4]][4]), "model_line": [(short(x[0]), x[1]) for x in line_tokens_at(a, cd[0])][:40]}, want_field)
+            return
         d = first_diff(a, b, upto if state["armed"] else 2)
         if d is not None:
             state["found"] = (rule, describe_diff(a, b, d), d[1])
@@ -431,6 +465,7 @@ def c08_eval(lines, cla, oc, fp=7, sk=(), disabled=None, want_model=False):
         for r in rl.rules:
             if r.unique_id in disabled:
                 r.disable = True
+    ids0 = set(map(id, o.lAllObjects))
     try:
         rl.fix(fp, list(sk), None)
     except Exception as e:  # noqa: BLE001 - C19's business
@@ -455,6 +490,14 @@ def c08_eval(lines, cla, oc, fp=7, sk=(), disabled=None, want_model=False):
     ev["d"] = d
     ev["field"] = d and ("class" if d[1] == "length" else d[1])
     ev["a"], ev["b"] = a, b
+    ev["code_d"] = code_first_diff(a, b)
+    if ev["code_d"] and ev["code_d"][1] == "code_tags":
+        from vsg import parser as vparser
+
+        toks = [t for t in o.lAllObjects if not isinstance(t, vparser.beginning_of_file)]
+        cd = ev["code_d"]
+        ma, mb = set(a[cd[0]][4]), set(b[cd[4]][4])
+        ev["code_tags_how"] = ("new" if id(toks[cd[0]]) not in ids0 else "old") + (":missing" if ma < mb else ":extra" if ma > mb else ":other")
     try:
         rl2 = vsgrun.new_rule_list(o2, oc)
         if disabled:
@@ -488,15 +531,29 @@ def c08_kinds(ev, full):
     if ev["status"] not in ("ok", "checkcrash"):
         return []
     f = ev["field"]
+    # which token classes meet at the first difference is part of the identity: a stray blank-line marker and a
+    # keyword classified differently are different findings even when the same base class produced both
+    what = ""
+    if f and ev.get("d") and ev.get("a") is not None:
+        i = ev["d"][0]
+        xa = short(ev["a"][i][0]) if i < len(ev["a"]) else "-"
+        xb = short(ev["b"][i][0]) if i < len(ev["b"]) else "-"
+        what = ":%s->%s" % (xa, xb) if f == "class" else ":%s" % xa
     if f in ("class", "value"):
-        ks.append("modelDiffersFromReparse:" + f)
+        ks.append("modelDiffersFromReparse:" + f + what)
     elif f in ("indent", "hierarchy"):
         if full:
-            ks.append("modelDiffersFromReparse:" + f)
+            ks.append("modelDiffersFromReparse:" + f + what)
         elif ev["report"]:
             ks.append("staleIndentReport")
     elif ev["report"]:
         ks.append("reportDiffersSameModel")
+    cd = ev.get("code_d")
+    if cd:
+        if cd[1] == "codeClass":
+            ks.append("modelDiffersFromReparse:codeClass:%s->%s" % (short(cd[2]), short(cd[3])))
+        else:
+            ks.append("modelDiffersFromReparse:code_tags:" + ev.get("code_tags_how", "?"))
     return ks
 
 
@@ -555,6 +612,15 @@ def run_c08_inner(job):
                 site = owner_of(rule)
                 if zero_spaces_configured(ev["rl"], rule):
                     kind = "fixedTextRejected:zeroSpacesConfigured"
+        elif kind.startswith("modelDiffersFromReparse:codeClass") or kind.startswith("modelDiffersFromReparse:code_tags"):
+            rule, ldet, lfield = localise(lines, cla, oc, job, ev["code_d"][1])
+            if rule is None:
+                rule, ldet = "rule_list.fix", None
+            site = owner_of(rule) if not rule.startswith("<") and rule != "rule_list.fix" else rule.strip("<>")
+            det = dict(ldet or {})
+            det["rule"] = rule
+            if ev["report"]:
+                det["report_difference"] = ev["report"]
         elif kind.startswith("modelDiffersFromReparse"):
             rule, ldet, lfield = localise(lines, cla, oc, job, ev["d"][1])
             if rule is None:
@@ -1111,7 +1177,10 @@ def run(prop, tier):
         for r in results:
             for fl in r["failures"]:
                 key = (fl["site"], fl["kind"])
-                counts["%s|%s" % key] += 1
+                if prop == "C09":
+                    ch0 = [c for c in (fl["detail"].get("rules_changing_in_second_run") or []) if not c.startswith("<")][:1]
+                    key = (fl["site"], fl["kind"], tuple(ch0))
+                counts["%s|%s" % key[:2]] += 1
                 if key not in distinct or len(fl["input"].get("text", "")) < len(distinct[key]["input"].get("text", "")):
                     distinct[key] = fl
         for r in results:
@@ -1136,7 +1205,7 @@ def run(prop, tier):
             # sites may have been sharpened by the second minimisation: merge equal ones
             merged = {}
             for fl in fls:
-                key = (fl["site"], fl["kind"])
+                key = (fl["site"], fl["kind"], tuple([c for c in (fl["detail"].get("rules_changing_in_second_run") or []) if not c.startswith("<")][:1]))
                 old_fl = merged.get(key)
                 if old_fl is None or len(fl["input"].get("cut_input") or fl["input"]["text"].split("\n")) < len(old_fl["input"].get("cut_input") or old_fl["input"]["text"].split("\n")):
                     merged[key] = fl
@@ -1236,6 +1305,9 @@ def run(prop, tier):
                 pass
             if isinstance(fl["detail"], dict):
                 fl["detail"]["rule_set_site"] = fl["site"]
+            # … and, inside that base class, by the rule itself (a listed base class does not hide another of its rules)
+            if cand and not cand[0].startswith("rule_list") and ":" not in fl["kind"]:
+                fl["kind"] = "%s:%s" % (fl["kind"], cand[0])
         res.fail(site, fl["kind"], fl["detail"], fl["input"])
     nontrivial = sum(1 for r in results if r.get("changed"))
     samples = [{"job": os.path.relpath(fl["input"].get("path", "?"), common.REPO), "variant": fl["input"].get("variant"), "config": fl["input"].get("config"), "site": fl["site"], "kind": fl["kind"]} for fl in list(distinct.values())[:6]]
@@ -1260,9 +1332,15 @@ def run(prop, tier):
     if prop == "C08":
         res.assumptions = [
             "class agreement of the fresh parse with the in-memory model is decided per explored run (the classifier is not modelled in Lean); the Lean theorem covers the lexical round trip of lines free of quote and backslash characters",
-            "code_tags are not compared token by token (their effect is compared through the reports)",
+            "code tags are compared on the code tokens (layout tokens left out), first difference only; their effect is also compared through the reports",
             "jobs whose input is rejected or whose fix run raises are not evaluated (C19)",
         ]
+        try:
+            import props_setindent
+
+            props_setindent.extra(res, tier, "C08")
+        except ImportError:
+            pass
     else:
         res.assumptions = [
             "convergence of the real rule set is emergent from ~960 unmodelled analyses: the Lean theorems are the reduction (fixpoint of every scheduled rule and of the post-normalisation ⇒ fixpoint of the run; a fixpoint after one step excludes every cycle); their hypotheses are evaluated with the real analyses on each explored first output",
